@@ -79,7 +79,7 @@ pub const SHA256_REGIONS: [(&str, &str); 9] = [
     ("prepare message word", "prepW"),
 ];
 
-fn expr_json(e: &Expression<F>) -> Value {
+pub fn expr_json(e: &Expression<F>) -> Value {
     match e {
         Expression::Constant(c) => json!({"t": "const", "v": fe_hex(c)}),
         Expression::Selector(s) => json!({"t": "sel", "i": s.index(), "simple": s.is_simple()}),
@@ -94,7 +94,7 @@ fn expr_json(e: &Expression<F>) -> Value {
     }
 }
 
-fn find_selector(e: &Expression<F>) -> Option<usize> {
+pub fn find_selector(e: &Expression<F>) -> Option<usize> {
     match e {
         Expression::Selector(s) => Some(s.index()),
         Expression::Negated(a) | Expression::Scaled(a, _) => find_selector(a),
@@ -189,15 +189,17 @@ pub struct ShaTrace {
 /// Synthesises the real stand-alone SHA-256 circuit on `msg` with the recording backend and
 /// renders the chip regions.
 pub fn record(msg: &[u8]) -> ShaTrace {
-    record_circuit(&Sha256Circuit::new(msg.to_vec()), &SHA256_GATES, &SHA256_REGIONS)
+    record_circuit(&Sha256Circuit::new(msg.to_vec()), &SHA256_GATES, &SHA256_REGIONS, false)
 }
 
 /// Same for the stand-alone SHA-512 circuit.
 pub fn record512(msg: &[u8]) -> ShaTrace {
-    record_circuit(&Sha512Circuit::new(msg.to_vec()), &SHA512_GATES, &SHA512_REGIONS)
+    record_circuit(&Sha512Circuit::new(msg.to_vec()), &SHA512_GATES, &SHA512_REGIONS, false)
 }
 
-fn record_circuit<C: Circuit<F>>(circuit: &C, gates: &[(&str, &str)], regions: &[(&str, &str)]) -> ShaTrace
+/// `ext_by_creation`: external cells (`X<n>`) are numbered in the order the cells were created
+/// (owner region, offset, column) instead of the order of first use as a copy source.
+pub fn record_circuit<C: Circuit<F>>(circuit: &C, gates: &[(&str, &str)], regions: &[(&str, &str)], ext_by_creation: bool) -> ShaTrace
 where
     C::Params: Default,
 {
@@ -221,6 +223,33 @@ where
     }
     // canonical name of a cell as a copy source
     let mut ext: HashMap<CellRef, usize> = HashMap::new();
+    if ext_by_creation {
+        let mut used: Vec<(usize, usize, usize, CellRef)> = vec![];
+        for (l, r) in &rec.copies {
+            let lo = owners.get(l).copied();
+            let ro = owners.get(r).copied();
+            let (src, dsto) = match (lo, ro) {
+                (Some(a), Some(b)) if a.0 >= b.0 => (r, a),
+                (Some(_), Some(b)) => (l, b),
+                (None, Some(b)) => (l, b),
+                (Some(a), None) => (r, a),
+                (None, None) => continue,
+            };
+            if src.0 != 'a' || !chip_index.contains_key(&dsto.0) {
+                continue;
+            }
+            if let Some((k, off)) = owners.get(src) {
+                if !chip_index.contains_key(k) {
+                    used.push((*k, *off, src.1, *src));
+                }
+            }
+        }
+        used.sort();
+        used.dedup();
+        for (n, u) in used.iter().enumerate() {
+            ext.insert(u.3, n);
+        }
+    }
     let mut name_of = |c: &CellRef, rec: &Rec| -> String {
         if c.0 == 'f' {
             return match rec.fixed.get(&(c.1, c.2)) {
